@@ -234,6 +234,8 @@ def h12b_pre(p1, t1, p2, t2, c0, c1):
         return False
     if S("preemptions") == 1:
         return p2 == 0 and t2 == 0 and p1 + 1 > 10**6 or (p2 == 10**6 and t2 == 0)
+    if S("fixc") and not (c0 and c1):
+        return False
     return 0 <= p2 <= S("p2max") and 0 <= t2 < n
 
 
@@ -242,6 +244,11 @@ def h12b_shards(tier):
     for rd in (False, True):
         for lo in range(0, 64, 8):
             out.append({"fine": True, "reader": rd, "preemptions": 1, "p1": (lo, lo + 8), "_timeout": 1200, "_path_timeout": 120})
+    # two preemptions (A is preempted while it holds the write, B is preempted again between two of its own
+    # statements): the lost wake-up shape.  Quick: both writers commit, second preemption within 16 steps of the first.
+    if tier == "quick":
+        for lo in range(0, 40, 4):
+            out.append({"fine": True, "reader": False, "preemptions": 2, "p1": (lo, lo + 4), "p2max": 16, "fixc": True, "_timeout": 1200, "_path_timeout": 120})
     if tier == "thorough":
         for lo in range(0, 64, 2):
             out.append({"fine": True, "reader": False, "preemptions": 2, "p1": (lo, lo + 2), "p2max": 60, "_timeout": 3000, "_path_timeout": 120})
@@ -276,7 +283,7 @@ HARNESSES = [
             encodes=["dns.versioned.Zone.writer", "dns.versioned.Zone._end_write", "dns.versioned.Zone._commit_version",
                      "dns.zone.Transaction._end_transaction", "dns.transaction.Transaction._end", "dns.transaction.Transaction.commit",
                      "dns.transaction.Transaction.rollback"],
-            bound="2 writers (+ 1 reader), a preemption point after every statement of the rewritten methods, 1 preemption at any of the first 64 steps to any thread (thorough: 2 preemptions)",
+            bound="2 writers (+ 1 reader), a preemption point after every statement of the rewritten methods, 1 preemption at any of the first 64 steps to any thread, plus 2 preemptions (first within the first 40 steps, second <= 16 steps later, both writers committing); thorough: 2 preemptions anywhere in the first 64 + 60 steps, commit / rollback symbolic",
             stubs=["E10", "E6"], outside="> 2 preemptions", setup=setup),
     Harness("H12c", h12c, None, lambda tier: [{"fine": False, "_timeout": 60}], kind="static side condition (AST)",
             encodes=["dns.versioned.Zone.writer", "dns.versioned.Zone.reader"], bound="AST of 6 methods", stubs=[], outside="", setup=setup),
